@@ -21,6 +21,10 @@
 #     one-shot pattern : cycle t-L is the first cycle after a burst within the burst window.
 #   Any other detect is a violation "detect-unjustified:<first missing requirement>".
 #
+# LFPSTransceiver (the class that wires three detectors and the polling generator to one clock frequency) is driven the
+# same way at non-default frequencies: envelope BFS judged on polling_detected with the windows computed for that
+# frequency (ping_detected / reset_detected must stay silent), and send_polling stretches judged by the generator monitor.
+#
 # Generator: per-cycle closure over generate in {0,1} on LFPSGenerator(polling pattern, f).  Monitor: every burst
 # (run of send_signaling) that starts and ends while generate has been held is typical long, consecutive burst starts
 # under a held generate are one typical period apart (tolerance: f*t_typ rounded to whole cycles either way +-2 cycles -
@@ -51,7 +55,9 @@ def configs(tier):
          dict(kind="generator", pattern="polling", f=10e6),
          dict(kind="generator", pattern="polling", f=5e6),
          dict(kind="generator", pattern="polling", f=12.5e6),
-         dict(kind="generator", pattern="polling", f=25e6)]
+         dict(kind="generator", pattern="polling", f=25e6),
+         dict(kind="transceiver-detect", pattern="polling", f=10e6, depth=7, menu="edges"),
+         dict(kind="transceiver-generate", pattern="polling", f=10e6)]
     if tier == "quick":
         return q
     t = [dict(kind="detector", pattern="polling", f=10e6, depth=9, menu="wide"),
@@ -70,7 +76,12 @@ def configs(tier):
          dict(kind="generator", pattern="polling", f=12.5e6),
          dict(kind="generator", pattern="polling", f=3.3e6),
          dict(kind="generator", pattern="polling", f=25e6),
-         dict(kind="generator", pattern="polling", f=125e6)]
+         dict(kind="generator", pattern="polling", f=125e6),
+         dict(kind="transceiver-detect", pattern="polling", f=10e6, depth=8, menu="edges"),
+         dict(kind="transceiver-detect", pattern="polling", f=25e6, depth=8, menu="edges"),
+         dict(kind="transceiver-detect", pattern="polling", f=125e6, depth=7, menu="edges"),
+         dict(kind="transceiver-generate", pattern="polling", f=10e6),
+         dict(kind="transceiver-generate", pattern="polling", f=25e6)]
     return t
 
 
@@ -86,6 +97,12 @@ def window_cycles(f, tm):
 class DetectorSpec(Spec):
     n_validate = 6
     validate_max_cycles = 4000
+    rule_prefix = "detect-unjustified:"
+    extra_D = ()          # further burst lengths / periods offered (subclasses)
+    extra_P = ()
+
+    def _others(self, obs, segs, level):
+        """hook: judge further outputs of the DUT in a cycle (segs already include that cycle)"""
 
     def __init__(self, cfg, tier):
         super().__init__(cfg, tier)
@@ -121,6 +138,7 @@ class DetectorSpec(Spec):
                  3 * (b + 1) + mid, 6 * b + 5}
         self.over = min(O)
         D |= O
+        D |= set(self.extra_D)
         self.D = sorted(d for d in D if d >= 1)
         if self.periodic:
             midp = (A + B) // 2
@@ -133,6 +151,7 @@ class DetectorSpec(Spec):
             # pauses beyond the repeat window: just beyond (+2: a detector may notice the time-out one cycle late), about
             # two windows, far beyond - "good iteration, over-long pause, good iteration" must not be reported
             P |= {B + 2, 2 * B + 5} if menu != "wide" else {B + 2, B + 3, 2 * B + 5, 4 * B + 3}
+            P |= set(self.extra_P)
             self.P = sorted(P)
             self.G = [1] if menu != "wide" else [1, 2]           # glitch gaps
             # gaps that do not depend on the length of the preceding burst (a mid-window period after a mid-window burst...)
@@ -222,7 +241,7 @@ class DetectorSpec(Spec):
             if not rs: return
             if best is None or len(rs) < len(best): best = rs
         first = sorted(best, key=self.ORDER.index)[0]
-        raise Violation("detect-unjustified:" + first, dict(missing=best, recent_segment_lengths=list(segs[-6:]),
+        raise Violation(self.rule_prefix + first, dict(missing=best, recent_segment_lengths=list(segs[-6:]),
                         newest_segment_is="signalling" if level else "quiet",
                         burst_window_cycles=(self.a, self.b), repeat_window_cycles=(self.A, self.B)))
 
@@ -235,13 +254,15 @@ class DetectorSpec(Spec):
         remaining = act[1]
         while remaining > 0:
             c, first, last = cur.hold(remaining, signaling_received=level)
-            same = (last.detect == first.detect)
+            same = (tuple(last) == tuple(first))
             k = c if same else c - 1
-            if first.detect:
+            if any(first):
                 for _ in range(k):
                     segs[-1] += 1
-                    self.cover["detect"] += 1
-                    self.check_detect(segs, level)
+                    if first.detect:
+                        self.cover["detect"] += 1
+                        self.check_detect(segs, level)
+                    self._others(first, segs, level)
             else:
                 segs[-1] += k
             if not same:
@@ -249,6 +270,7 @@ class DetectorSpec(Spec):
                 if last.detect:
                     self.cover["detect"] += 1
                     self.check_detect(segs, level)
+                self._others(last, segs, level)
             remaining -= c
         # classification cover (vacuity: accepted and rejected envelopes were both offered)
         if level == 1:
@@ -366,5 +388,85 @@ class GeneratorSpec(Spec):
         return ["burst_started", "burst_measured", "period_measured", "enabled_quiet"]
 
 
+class TransceiverDetectSpec(DetectorSpec):
+    """DUT = the real LFPSTransceiver(ss_clk_freq=f): same envelope alphabet and window oracle, computed for f, on its
+    polling_detected output; additionally envelopes that the polling windows of the class' *default* clock (125 MHz) would
+    accept (a sub-block built without the frequency), and ping_detected / reset_detected, whose windows at f (repeat
+    period / burst of >= hundreds of thousands of cycles) no offered envelope comes near: any report there is unjustified."""
+    rule_prefix = "transceiver-polling_detected-unjustified:"
+
+    def __init__(self, cfg, tier):
+        pat = _pattern("polling")
+        a5, b5 = window_cycles(125e6, pat.burst)
+        A5, B5 = window_cycles(125e6, pat.repeat)
+        if cfg["f"] != 125e6:
+            self.extra_D = ((a5 + b5) // 2,)
+            self.extra_P = ((A5 + B5) // 2,)
+        super().__init__(cfg, tier)
+        f = cfg["f"]
+        longest = max(max(self.D), max(self.P)) + 10
+        self.others = []
+        for name in ("ping", "reset"):
+            op = _pattern(name)
+            w = window_cycles(f, op.repeat) if op.repeat is not None else window_cycles(f, op.burst)
+            assert w[0] > 4 * longest, (name, w, longest)        # far out of reach of every offered envelope
+            self.others.append((name + "_detected", "repeat period" if op.repeat is not None else "burst", w))
+
+    def build(self):
+        from luna.gateware.usb.usb3.physical.lfps import LFPSTransceiver
+        d = LFPSTransceiver(ss_clk_freq=self.cfg["f"])
+        return Design(d, dict(signaling_received=d.signaling_received, send_polling=d.send_polling),
+                      dict(detect=d.polling_detected, ping_detected=d.ping_detected, reset_detected=d.reset_detected))
+
+    def assumptions(self):
+        return super().assumptions() + ["LFPSTransceiver: send_polling is held low; ping_detected / reset_detected must stay low because no offered envelope comes within a factor 4 of their repeat / burst windows at this clock"]
+
+    def _others(self, obs, segs, level):
+        for name, what, w in self.others:
+            if getattr(obs, name):
+                raise Violation("transceiver-%s-unjustified" % name,
+                                dict(recent_segment_lengths=list(segs[-6:]), window=what, window_cycles=w))
+
+
+class TransceiverGenerateSpec(GeneratorSpec):
+    """DUT = LFPSTransceiver(ss_clk_freq=f), send_polling -> send_signaling / drive_electrical_idle, same monitor as the
+    generator.  The receivers' free-running counters keep the state from repeating, so instead of a per-cycle closure the
+    actions are stretches of send_polling held high / low from a small menu, to a fixed depth."""
+    n_validate = 3
+
+    def __init__(self, cfg, tier):
+        super().__init__(cfg, tier)
+        self.max_depth = 5 if tier == "quick" else 6
+        p = self.pmax
+        self.on = [1, 3, self.bmax + 2, p + 5, 2 * p + 7]
+        self.off = [1, 2, p]
+
+    def build(self):
+        from luna.gateware.usb.usb3.physical.lfps import LFPSTransceiver
+        d = LFPSTransceiver(ss_clk_freq=self.cfg["f"])
+        return Design(d, dict(generate=d.send_polling, signaling_received=d.signaling_received),
+                      dict(send_signaling=d.send_signaling, drive_electrical_idle=d.drive_electrical_idle, completed=d.cycles_sent))
+
+    def env0(self):
+        return (1, super().env0())
+
+    def actions(self, env):
+        return [("on", n) for n in self.on] if env[0] else [("off", n) for n in self.off]
+
+    def label(self, a):
+        return "send_polling %s for %d cycles" % (a[0], a[1])
+
+    def apply(self, cur, env, act):
+        nxt, mon = env
+        gen = 1 if act[0] == "on" else 0
+        for _ in range(act[1]):
+            mon = GeneratorSpec.apply(self, cur, mon, gen)
+        return (1 - nxt, mon)
+
+
 def make(cfg, tier):
-    return DetectorSpec(cfg, tier) if cfg["kind"] == "detector" else GeneratorSpec(cfg, tier)
+    k = cfg["kind"]
+    if k == "detector": return DetectorSpec(cfg, tier)
+    if k == "generator": return GeneratorSpec(cfg, tier)
+    if k == "transceiver-detect": return TransceiverDetectSpec(cfg, tier)
+    return TransceiverGenerateSpec(cfg, tier)
